@@ -318,7 +318,9 @@ def r2_single_writer(ctx, prog):
     else:
         r.viol("R2:writers", "the index of a string literal is written in %s" % sorted(writers), file=PV)
     # the indexer cannot be drained and reused: no method other than push_str takes &mut self
-    muts = [f.name for f in ctx.ast.fns if f.file.endswith(PM) and f.impl_self == "StringIndexer" and f.node["sig"]["inputs"] and "&mut" in flat(f.node["sig"]["inputs"][0]["ty"])]
+    # (a private helper of push_str is part of push_str: the indexer as a whole is decided by evaluation in R1 / R2)
+    muts = [f.name for f in ctx.ast.fns if f.file.endswith(PM) and f.impl_self == "StringIndexer" and f.node["sig"]["inputs"] and "&mut" in flat(f.node["sig"]["inputs"][0]["ty"])
+            and f.node.get("vis", "") != ""]
     if muts != ["push_str"]:
         r.viol("R2:StringIndexer#mut-api", "StringIndexer has &mut self methods %s besides push_str: the table can be altered or drained while the dedup map keeps stale indices" % muts, file=PM)
     else:
@@ -551,9 +553,10 @@ def r6_json(ctx, prog):
         return r
     # the escaper is checked against the JSON string grammar for every class of characters its code can distinguish
     # (finite case analysis over the literals and thresholds it mentions; see rules/dtable.py)
-    from rules import dtable
+    from rules import dtable, absint as _ai
+    _ai.set_program(ctx.ast)
     params = fn.params()
-    ok, problems, facts_ = dtable.escaper_spec(fn.body, params[1] if len(params) > 1 else "s", "json")
+    ok, problems, facts_ = dtable.escaper_spec(fn.body, params[1] if len(params) > 1 else "s", "json", fn=fn)
     if ok:
         r.inst("write_json_str", "for each of %d character classes the text written decodes (as JSON) to exactly that character; framed by double quotes" % facts_["classes"])
         r.inst("write_json_str control characters", "U+0000..U+001F are escaped")
